@@ -460,61 +460,63 @@ func vInfixShape(op pAst.InfixOperator) int {
     assume-safety
     requires len(self.varScopes) == 1 && self.scopesWF() && len(self.loops) == 0 && self.tryDepth == 0 && self.modules != nil && self.globalScopes != nil
     assert @all-root-scopes-exist before moduleAnnotations := make(ModuleAnnotations) :: forall m string in keys(program) :: haskey(self.globalScopes, m) && haskey(self.modules, m) && self.modules[m] != nil && haskey(initFns, m)
+    assert @exporter-scope-complete before if mangled, found := self.globalScopes[item.FromModule.Ident()][importItem.Ident.Ident()]; found :: forall m string in keys(program) :: haskey(self.globalScopes, m)
     assert @own-root-scope before fnAnnotations, _ := self.compileFn(fn) :: self.currModule == moduleName && samemap(self.varScopes[0], self.globalScopes[moduleName]) && self.scopesWF() && len(self.varScopes) == 1
+    assert @own-root-scope-methods before self.compileFn(fn) :: self.currModule == moduleName && samemap(self.varScopes[0], self.globalScopes[moduleName]) && self.scopesWF() && len(self.varScopes) == 1
     assume @init-routine-kept after self.currModule = entryPointModule :: self.aligned()
     loopinvariant len(self.varScopes) == 1 && self.scopesWF() && len(self.loops) == 0 && self.tryDepth == 0 && self.modules != nil && self.globalScopes != nil
-    loop 1 invariant forall m string in keys(program) :: visited(m) ==> haskey(self.globalScopes, m) && haskey(self.modules, m) && self.modules[m] != nil && haskey(initFns, m)
-    loop 2 invariant self.aligned() && self.currModule == moduleName && self.currFn == InitFunctionIdent
-    loop 2 invariant haskey(self.modules, moduleName) && self.modules[moduleName] != nil
-    loop 2 invariant haskey(self.globalScopes, moduleName)
-    loop 2 invariant haskey(initFns, moduleName)
-    loop 3 invariant self.aligned() && self.currModule == moduleName && self.currFn == InitFunctionIdent
-    loop 3 invariant haskey(self.modules, moduleName) && self.modules[moduleName] != nil
-    loop 3 invariant haskey(self.globalScopes, moduleName)
-    loop 3 invariant haskey(initFns, moduleName)
-    loop 4 invariant self.aligned() && self.currModule == moduleName && self.currFn == InitFunctionIdent
-    loop 4 invariant haskey(self.modules, moduleName) && self.modules[moduleName] != nil
-    loop 4 invariant haskey(self.globalScopes, moduleName)
-    loop 4 invariant haskey(initFns, moduleName)
-    loop 5 invariant self.aligned() && self.currModule == moduleName && self.currFn == InitFunctionIdent
-    loop 5 invariant haskey(self.modules, moduleName) && self.modules[moduleName] != nil
-    loop 5 invariant haskey(self.globalScopes, moduleName)
-    loop 5 invariant haskey(initFns, moduleName)
-    loop 6 invariant self.currModule == moduleName && haskey(self.modules, moduleName) && self.modules[moduleName] != nil && haskey(self.globalScopes, moduleName) && haskey(initFns, moduleName)
-    loop 7 invariant self.currModule == moduleName && haskey(self.modules, moduleName) && self.modules[moduleName] != nil && haskey(self.globalScopes, moduleName) && haskey(initFns, moduleName)
-    loop 8 invariant self.currModule == moduleName && haskey(self.modules, moduleName) && self.modules[moduleName] != nil && haskey(self.globalScopes, moduleName) && haskey(initFns, moduleName)
-    loop 9 invariant self.currModule == moduleName && haskey(self.modules, moduleName) && self.modules[moduleName] != nil && haskey(self.globalScopes, moduleName) && haskey(initFns, moduleName)
-    loop 10 invariant forall m string in keys(program) :: haskey(self.globalScopes, m) && haskey(self.modules, m) && self.modules[m] != nil
-    loop 11 invariant forall m string in keys(program) :: haskey(self.globalScopes, m) && haskey(self.modules, m) && self.modules[m] != nil
-    loop 12 invariant forall m string in keys(program) :: haskey(self.globalScopes, m) && haskey(self.modules, m) && self.modules[m] != nil
-    loop 13 invariant forall m string in keys(program) :: haskey(self.globalScopes, m) && haskey(self.modules, m) && self.modules[m] != nil
-    loop 14 invariant forall m string in keys(program) :: haskey(self.globalScopes, m) && haskey(self.modules, m) && self.modules[m] != nil
-    loop 15 invariant forall m string in keys(program) :: haskey(self.globalScopes, m) && haskey(self.modules, m) && self.modules[m] != nil
-    loop 16 invariant forall m string in keys(program) :: haskey(self.globalScopes, m) && haskey(self.modules, m) && self.modules[m] != nil
-    loop 11 invariant self.currModule == moduleName && samemap(self.varScopes[0], self.globalScopes[moduleName])
-    loop 12 invariant self.currModule == moduleName && samemap(self.varScopes[0], self.globalScopes[moduleName])
-    loop 13 invariant self.currModule == moduleName && samemap(self.varScopes[0], self.globalScopes[moduleName])
-    loop 14 invariant self.currModule == moduleName && samemap(self.varScopes[0], self.globalScopes[moduleName])
-    loop 15 invariant self.currModule == moduleName && samemap(self.varScopes[0], self.globalScopes[moduleName])
-    loop 16 invariant self.aligned() && self.currFn == InitFunctionIdent && self.currModule == entryPointModule
-    loop 1 invariant !samemap(initFns, self.varScopes[0]) && !samemap(initFns, mappings.Globals) && !samemap(initFns, mappings.Functions) && !samemap(initFns, mappings.Singletons)
-    loop 2 invariant !samemap(initFns, self.varScopes[0]) && !samemap(initFns, mappings.Globals) && !samemap(initFns, mappings.Functions) && !samemap(initFns, mappings.Singletons)
-    loop 3 invariant !samemap(initFns, self.varScopes[0]) && !samemap(initFns, mappings.Globals) && !samemap(initFns, mappings.Functions) && !samemap(initFns, mappings.Singletons)
-    loop 4 invariant !samemap(initFns, self.varScopes[0]) && !samemap(initFns, mappings.Globals) && !samemap(initFns, mappings.Functions) && !samemap(initFns, mappings.Singletons)
-    loop 5 invariant !samemap(initFns, self.varScopes[0]) && !samemap(initFns, mappings.Globals) && !samemap(initFns, mappings.Functions) && !samemap(initFns, mappings.Singletons)
-    loop 6 invariant !samemap(initFns, self.varScopes[0]) && !samemap(initFns, mappings.Globals) && !samemap(initFns, mappings.Functions) && !samemap(initFns, mappings.Singletons)
-    loop 7 invariant !samemap(initFns, self.varScopes[0]) && !samemap(initFns, mappings.Globals) && !samemap(initFns, mappings.Functions) && !samemap(initFns, mappings.Singletons)
-    loop 8 invariant !samemap(initFns, self.varScopes[0]) && !samemap(initFns, mappings.Globals) && !samemap(initFns, mappings.Functions) && !samemap(initFns, mappings.Singletons)
-    loop 9 invariant !samemap(initFns, self.varScopes[0]) && !samemap(initFns, mappings.Globals) && !samemap(initFns, mappings.Functions) && !samemap(initFns, mappings.Singletons)
-    loop 2 invariant samecontent(initFns, entry(initFns))
-    loop 3 invariant samecontent(initFns, entry(initFns))
-    loop 4 invariant samecontent(initFns, entry(initFns))
-    loop 5 invariant samecontent(initFns, entry(initFns))
-    loop 6 invariant samecontent(initFns, entry(initFns))
-    loop 7 invariant samecontent(initFns, entry(initFns))
-    loop 8 invariant samecontent(initFns, entry(initFns))
-    loop 9 invariant samecontent(initFns, entry(initFns))
-    loop 16 progress @every-module-initialised moduleName == entryPointModule || (self.codeLen() == iterstart(self.codeLen()) + 1 && self.emitted(0).Opcode() == Opcode_Call_Imm && self.emitted(0).(OneStringInstruction).Value == otherInit)
+    loop "for moduleName, module := range program" invariant forall m string in keys(program) :: visited(m) ==> haskey(self.globalScopes, m) && haskey(self.modules, m) && self.modules[m] != nil && haskey(initFns, m)
+    loop "range module.Singletons" invariant self.aligned() && self.currModule == moduleName && self.currFn == InitFunctionIdent
+    loop "range module.Singletons" invariant haskey(self.modules, moduleName) && self.modules[moduleName] != nil
+    loop "range module.Singletons" invariant haskey(self.globalScopes, moduleName)
+    loop "range module.Singletons" invariant haskey(initFns, moduleName)
+    loop "range module.Globals" invariant self.aligned() && self.currModule == moduleName && self.currFn == InitFunctionIdent
+    loop "range module.Globals" invariant haskey(self.modules, moduleName) && self.modules[moduleName] != nil
+    loop "range module.Globals" invariant haskey(self.globalScopes, moduleName)
+    loop "range module.Globals" invariant haskey(initFns, moduleName)
+    loop "range module.Imports" invariant self.aligned() && self.currModule == moduleName && self.currFn == InitFunctionIdent
+    loop "range module.Imports" invariant haskey(self.modules, moduleName) && self.modules[moduleName] != nil
+    loop "range module.Imports" invariant haskey(self.globalScopes, moduleName)
+    loop "range module.Imports" invariant haskey(initFns, moduleName)
+    loop "range item.ToImport" invariant self.aligned() && self.currModule == moduleName && self.currFn == InitFunctionIdent
+    loop "range item.ToImport" invariant haskey(self.modules, moduleName) && self.modules[moduleName] != nil
+    loop "range item.ToImport" invariant haskey(self.globalScopes, moduleName)
+    loop "range item.ToImport" invariant haskey(initFns, moduleName)
+    loop "range module.Functions" invariant self.currModule == moduleName && haskey(self.modules, moduleName) && self.modules[moduleName] != nil && haskey(self.globalScopes, moduleName) && haskey(initFns, moduleName)
+    loop "range module.ImplBlocks" invariant self.currModule == moduleName && haskey(self.modules, moduleName) && self.modules[moduleName] != nil && haskey(self.globalScopes, moduleName) && haskey(initFns, moduleName)
+    loop "range impl.Methods" invariant self.currModule == moduleName && haskey(self.modules, moduleName) && self.modules[moduleName] != nil && haskey(self.globalScopes, moduleName) && haskey(initFns, moduleName)
+    loop "range self.modules[self.currModule]" invariant self.currModule == moduleName && haskey(self.modules, moduleName) && self.modules[moduleName] != nil && haskey(self.globalScopes, moduleName) && haskey(initFns, moduleName)
+    loop "for moduleName, module := range program" invariant !samemap(initFns, self.varScopes[0]) && !samemap(initFns, mappings.Globals) && !samemap(initFns, mappings.Functions) && !samemap(initFns, mappings.Singletons)
+    loop "range module.Singletons" invariant !samemap(initFns, self.varScopes[0]) && !samemap(initFns, mappings.Globals) && !samemap(initFns, mappings.Functions) && !samemap(initFns, mappings.Singletons)
+    loop "range module.Globals" invariant !samemap(initFns, self.varScopes[0]) && !samemap(initFns, mappings.Globals) && !samemap(initFns, mappings.Functions) && !samemap(initFns, mappings.Singletons)
+    loop "range module.Imports" invariant !samemap(initFns, self.varScopes[0]) && !samemap(initFns, mappings.Globals) && !samemap(initFns, mappings.Functions) && !samemap(initFns, mappings.Singletons)
+    loop "range item.ToImport" invariant !samemap(initFns, self.varScopes[0]) && !samemap(initFns, mappings.Globals) && !samemap(initFns, mappings.Functions) && !samemap(initFns, mappings.Singletons)
+    loop "range module.Functions" invariant !samemap(initFns, self.varScopes[0]) && !samemap(initFns, mappings.Globals) && !samemap(initFns, mappings.Functions) && !samemap(initFns, mappings.Singletons)
+    loop "range module.ImplBlocks" invariant !samemap(initFns, self.varScopes[0]) && !samemap(initFns, mappings.Globals) && !samemap(initFns, mappings.Functions) && !samemap(initFns, mappings.Singletons)
+    loop "range impl.Methods" invariant !samemap(initFns, self.varScopes[0]) && !samemap(initFns, mappings.Globals) && !samemap(initFns, mappings.Functions) && !samemap(initFns, mappings.Singletons)
+    loop "range self.modules[self.currModule]" invariant !samemap(initFns, self.varScopes[0]) && !samemap(initFns, mappings.Globals) && !samemap(initFns, mappings.Functions) && !samemap(initFns, mappings.Singletons)
+    loop "range module.Singletons" invariant samecontent(initFns, entry(initFns))
+    loop "range module.Globals" invariant samecontent(initFns, entry(initFns))
+    loop "range module.Imports" invariant samecontent(initFns, entry(initFns))
+    loop "range item.ToImport" invariant samecontent(initFns, entry(initFns))
+    loop "range module.Functions" invariant samecontent(initFns, entry(initFns))
+    loop "range module.ImplBlocks" invariant samecontent(initFns, entry(initFns))
+    loop "range impl.Methods" invariant samecontent(initFns, entry(initFns))
+    loop "range self.modules[self.currModule]" invariant samecontent(initFns, entry(initFns))
+    loop "for moduleName, module := range program"#2 invariant forall m string in keys(program) :: haskey(self.globalScopes, m) && haskey(self.modules, m) && self.modules[m] != nil
+    loop "range module.Imports"#2 invariant forall m string in keys(program) :: haskey(self.globalScopes, m) && haskey(self.modules, m) && self.modules[m] != nil
+    loop "range item.ToImport"#2 invariant forall m string in keys(program) :: haskey(self.globalScopes, m) && haskey(self.modules, m) && self.modules[m] != nil
+    loop "range module.Functions"#2 invariant forall m string in keys(program) :: haskey(self.globalScopes, m) && haskey(self.modules, m) && self.modules[m] != nil
+    loop "range module.ImplBlocks"#2 invariant forall m string in keys(program) :: haskey(self.globalScopes, m) && haskey(self.modules, m) && self.modules[m] != nil
+    loop "range impl.Methods"#2 invariant forall m string in keys(program) :: haskey(self.globalScopes, m) && haskey(self.modules, m) && self.modules[m] != nil
+    loop "range initFns" invariant forall m string in keys(program) :: haskey(self.globalScopes, m) && haskey(self.modules, m) && self.modules[m] != nil
+    loop "range module.Imports"#2 invariant self.currModule == moduleName && samemap(self.varScopes[0], self.globalScopes[moduleName])
+    loop "range item.ToImport"#2 invariant self.currModule == moduleName && samemap(self.varScopes[0], self.globalScopes[moduleName])
+    loop "range module.Functions"#2 invariant self.currModule == moduleName && samemap(self.varScopes[0], self.globalScopes[moduleName])
+    loop "range module.ImplBlocks"#2 invariant self.currModule == moduleName && samemap(self.varScopes[0], self.globalScopes[moduleName])
+    loop "range impl.Methods"#2 invariant self.currModule == moduleName && samemap(self.varScopes[0], self.globalScopes[moduleName])
+    loop "range initFns" invariant self.aligned() && self.currFn == InitFunctionIdent && self.currModule == entryPointModule
+    loop "range initFns" progress @every-module-initialised moduleName == entryPointModule || (self.codeLen() == iterstart(self.codeLen()) + 1 && self.emitted(0).Opcode() == Opcode_Call_Imm && self.emitted(0).(OneStringInstruction).Value == otherInit)
 @*/
 
 // ---------------------------------------------------------------------------
